@@ -25,13 +25,13 @@ NOT_BUILT = ("no static rule built for this property in this round; see "
              "DESIGN.md section 4 for the clauses that are structurally decidable")
 
 TECHNIQUE = {
-    "C01": "static sibling-agreement analysis (ast): handler tables, driver-loop protocol summaries incl. the Python template strings, built-in binding tables, precedence constants",
+    "C01": "static sibling-agreement analysis (ast): handler tables, driver-loop protocol summaries incl. the Python template strings, built-in binding and argument-forwarding tables, precedence constants and forced-parentheses overrides; shared clauses of C02/C04/C05/C08/C20; repository lints",
     "C02": "static set-algebra summary of the dependency builder plus CFG ordering/pairing rules",
-    "C03": "static emission-structure analysis: def-use flow of guards into wrappers, operator-table agreement, emit-order dominance on a statement CFG",
-    "C04": "static CFG dominance / pairing / exactly-once rules over the execution controller",
-    "C05": "static structural analysis of the lowering: slot-role resolution, CFG dominance, handler exhaustiveness, unordered-iteration taint",
-    "C06": "static guarded-operation and argument-role rules over the simplifier passes (deque splice orientation, pop guards, polarity bookkeeping)",
-    "C07": "static def-use flow analysis of the rewriting passes: freshness, guard/dependency propagation, append-order vs. recursion, mapper arity protocol",
+    "C03": "static emission-structure analysis: def-use flow of guards into wrappers, operator meaning table, precedence / forced-parentheses agreement with pymbolic, template allocation idiom, emit-order dominance on a statement CFG; case tables of the lowering by abstract interpretation over terms (shared with C05/C07)",
+    "C04": "static CFG dominance / pairing / exactly-once rules over the execution controller, skip-set and executed-filter rules for recursive and explicit-stack traversals",
+    "C05": "case table of the per-statement lowering by abstract interpretation over uninterpreted terms; CFG dominance rules on the topological sort, handler exhaustiveness of the walker, unordered-iteration taint; simplifier clauses shared with C06",
+    "C06": "path-sensitive forward dataflow over sets of worlds (finite powerset domain) for the conditional / loop / block handlers of all four passes; guarded-operation, ownership and work-list rules on the CFG of the merge pass (splice orientation, pop guards, one consuming end, no early exit)",
+    "C07": "static def-use flow analysis of the rewriting passes: freshness and id/statement pairing, guard/dependency propagation, append-order vs. recursion, mapper arity protocol, component carry-over; case table of the statement wrapper by abstract interpretation over terms",
     "C08": "static provenance analysis comparing interpreter accesses with declared read/write sets over the real C3 MRO",
     "C09": "static total-return analysis of the kind mapper and table agreement across the built-in registries",
     "C10": "static loop-scope, call-order and pairing analysis of the verifier passes against the consumers' lookup tables",
@@ -40,7 +40,7 @@ TECHNIQUE = {
     "C13": "static constant evaluation of identifier alphabets and prefixes, memo/dispatch shape, case and length normalisation on the name path",
     "C14": "finite-domain abstract interpretation of unify() (exhaustive over the abstract kind universe) plus CFG pairing rules on the table update",
     "C15": "static set-typedness inference x order-sensitive sink taint analysis over the call graph of both generators",
-    "C16": "static def-use flow and field-coverage analysis of fusion and map_expressions",
+    "C16": "case table of fuse_two_phases by abstract interpretation over uninterpreted terms; static def-use flow and field-coverage analysis of fusion and map_expressions",
     "C17": "static guarded-operation / dominance rules over the unifier extension and match front end",
     "C18": "static push/pop balance analysis of the constant classifier against pymbolic's handler table, plus pairing rules",
     "C20": "static path enumeration over the wrapper loop with boolean-flag sensitivity (token conservation, pad discipline)",
